@@ -207,13 +207,25 @@ pub fn run(ctx: &mut Ctx) {
         }
 
         // mis-declaration by a key holder: content Y, declared digest d(Z)
-        let y = Envelope::new(format!("Y-{}", case)).add_assertion("k", case);
+        let y = match rng.below(6) {
+            0 => Envelope::new(format!("Y-{}", case)),
+            1 => Envelope::new(format!("Y-{}", case)).wrap_envelope(),
+            2 => Envelope::new_assertion("yk", case),
+            3 => Envelope::new(KnownValue::new(case % 97)),
+            4 => Envelope::new(format!("Y-{}", case)).elide(),
+            _ => Envelope::new(format!("Y-{}", case)).add_assertion("k", case),
+        };
         let z_digest = Digest::from_data(t.digest);
         let subj_digest = Digest::from_data(if t.kind == Kind::Node { t.children[0].digest } else { t.digest });
-        let forged_msg = key.encrypt_with_digest(env_bytes(&y), &subj_digest, None::<Nonce>);
-        expect_reject(ctx, install(&enc, forged_msg), &key, "misdeclared-content", &enc, || "content Y encrypted under the declared digest of the original subject".into());
-        let forged_bare = key.encrypt_with_digest(env_bytes(&y), &z_digest, None::<Nonce>);
-        expect_reject(ctx, Envelope::try_from(forged_bare).map_err(|e| e.to_string()), &key, "misdeclared-content-bare", &enc, || "bare forged message".into());
+        // (Y must really be something else than what the digest stands for)
+        if gen::root_digest(&y) != *subj_digest.data() {
+            let forged_msg = key.encrypt_with_digest(env_bytes(&y), &subj_digest, None::<Nonce>);
+            expect_reject(ctx, install(&enc, forged_msg), &key, "misdeclared-content", &enc, || "content Y encrypted under the declared digest of the original subject".into());
+        }
+        if gen::root_digest(&y) != t.digest {
+            let forged_bare = key.encrypt_with_digest(env_bytes(&y), &z_digest, None::<Nonce>);
+            expect_reject(ctx, Envelope::try_from(forged_bare).map_err(|e| e.to_string()), &key, "misdeclared-content-bare", &enc, || "bare forged message".into());
+        }
         // content that is not an envelope at all
         let junk = key.encrypt_with_digest(dcbor::CBOR::from("not an envelope").to_cbor_data(), &subj_digest, None::<Nonce>);
         expect_reject(ctx, install(&enc, junk), &key, "misdeclared-nonenvelope", &enc, || "plaintext is not an envelope".into());
